@@ -78,6 +78,22 @@ def stmtPhase1 (sc : Schema) (cfg : Cfg) (t : Table) (args : Args) (s : Stmt) :
       let news := rows.map fun es => es.map (evalE [] args)
       .ok (t', { kind := .insert, before := [], after := news.map (project sc (allCols sc)) }, news.map (keyOf sc))
   | .failing _ => .error (.sql .other)
+  | .updateLim sets w ord lim =>
+    if namesKey sc sets then .error .pkChanged else
+    let sel := limitedKeys sc t args w ord lim
+    let cols := updateCols sc cfg sets
+    let hit := t.filter fun r => sel.contains (keyOf sc r)
+    match apply sc t args s with
+    | .error e => .error (.sql e)
+    | .ok (t', _) =>
+      let after := t'.filter fun r => sel.contains (keyOf sc r)
+      .ok (t', { kind := .update, before := hit.map (project sc cols), after := after.map (project sc cols) }, hit.map (keyOf sc))
+  | .deleteLim w ord lim =>
+    let sel := limitedKeys sc t args w ord lim
+    let hit := t.filter fun r => sel.contains (keyOf sc r)
+    match apply sc t args s with
+    | .error e => .error (.sql e)
+    | .ok (t', _) => .ok (t', { kind := .delete, before := hit.map (project sc (allCols sc)), after := [] }, hit.map (keyOf sc))
   | .upsert rows _ =>
     -- before / after image: the rows stored under the new rows' keys, before and after the statement.
     -- No key existed: an INSERT item.  Some existed: an UPDATE item for those (the rows that were
@@ -156,6 +172,8 @@ def localPhase1 (sc : Schema) (cfg : Cfg) : Table → LocalTx → Except P1Err (
 def failedKeys (sc : Schema) (t : Table) (args : Args) : Stmt → List Key
   | .failing (.update sets w) => if namesKey sc sets then [] else (t.filter fun r => matches_ r args w).map (keyOf sc)
   | .failing (.delete w) => (t.filter fun r => matches_ r args w).map (keyOf sc)
+  | .failing (.updateLim sets w ord lim) => if namesKey sc sets then [] else limitedKeys sc t args w ord lim
+  | .failing (.deleteLim w ord lim) => limitedKeys sc t args w ord lim
   | _ => []   -- a failing INSERT / upsert takes its keys from the after image, which it never reaches
 
 /-- a local transaction whose application carries on after a failed statement (the database has
